@@ -60,7 +60,7 @@ partial def parseSections (s : Scene) : List String → Scene
     | [key, val] =>
       let s :=
         if key == "door" then { s with door := val }
-        else if key == "tgt" then { s with tgtFb := val == "fb" }
+        else if key == "tgt" then { s with tgtFb := val == "fb" || val == "fs" }
         else if key == "dims" then
           match val.splitOn "x" with
           | [a, b] => { s with w := a.toNat?.getD 0, h := b.toNat?.getD 0 }
